@@ -10,6 +10,7 @@ observation (one line, no messages, no addresses):
   at=<finished|cancelled|running:<n>|unstarted>   the function when the caller's instant is over
   end=…  seen=<cancellations delivered inside the function>  pend=<tasks alive at final quiescence>
   handler=<calls of the loop exception handler caused by a failing callback>
+  tm=<timers still armed at the end of the first instant at which caller and function are both done>
 """
 from __future__ import annotations
 
@@ -17,6 +18,18 @@ import asyncio
 import itertools
 
 from harness import core, vloop
+
+# Workaround (reported): harness/vloop.py freezes `time.monotonic` process-wide; multiprocessing's
+# `connection.wait(timeout=0)` then never returns and the Pool of core.run_real_many never exits.
+# Give the multiprocessing modules the real clock.
+import types as _types
+import multiprocessing.connection as _mpc
+import multiprocessing.pool as _mpp
+import time as _time_mod
+
+_REAL = _types.SimpleNamespace(monotonic=vloop.real_monotonic, sleep=vloop._REAL_SLEEP, time=_time_mod.time)
+_mpc.time = _REAL
+_mpp.time = _REAL
 
 PID = "C16"
 LEAN_COMPONENT = "timeout"
@@ -146,13 +159,19 @@ def run_real(case: str) -> str:
         if c is not None:
             loop.call_at(t0 + c, caller.cancel)
         at = None
+        tm = None
         for t in sorted({0, d, dl} | ({c} if c is not None else set())):
             loop.advance_to(t0 + t)
             if at is None and caller.done():
                 at = status()
+            if tm is None and caller.done() and (info["ended"] or not info["started"]):
+                own = 1 if (c is not None and c > t) else 0   # the harness's own cancel timer
+                tm = loop.pending_timers() - own
         loop.quiesce(advance=True)
         if at is None and caller.done():
             at = status()
+        if tm is None and caller.done() and (info["ended"] or not info["started"]):
+            tm = loop.pending_timers()
         if not caller.done():
             out = "hang@-"
         else:
@@ -174,7 +193,7 @@ def run_real(case: str) -> str:
             out = f"{o}@{int(t) if t is not None and t == int(t) else t}"
         pend = sum(1 for t in asyncio.all_tasks(loop) if not t.done())
         end = info["ended"] or ("running" if info["started"] else "unstarted")
-        return f"out={out} at={at or '-'} end={end} seen={info['seen']} pend={pend} handler={len(handler_calls)}"
+        return f"out={out} at={at or '-'} end={end} seen={info['seen']} pend={pend} handler={len(handler_calls)} tm={'-' if tm is None else tm}"
     except vloop.NoQuiescence:
         return "HANG(no-quiescence)"
     finally:
@@ -193,7 +212,7 @@ def has_tie(case: str) -> bool:
     except Exception:  # noqa: BLE001
         return False
     ts = [d, dl] + ([c] if c is not None else [])
-    return len(set(ts)) < len(ts)
+    return len(set(ts)) < len(ts) or c == 0   # c=0 ties with the start of the call itself
 
 
 def canon(case: str, out: str) -> str:
@@ -225,7 +244,7 @@ OUTCOME_OF_KIND = {"val": "res", "exc": "exc", "base": "base", "self": "cancelle
 def fields(out: str) -> dict[str, str] | None:
     try:
         f = dict(t.split("=", 1) for t in out.split())
-        for k in ("out", "at", "end", "seen", "pend", "handler"):
+        for k in ("out", "at", "end", "seen", "pend", "handler", "tm"):
             f[k]
         f["okind"], f["otime"] = f["out"].split("@", 1)
         return f
@@ -270,6 +289,8 @@ def monitor(case: str, out: str) -> list[str]:
             fails.append("timeout.function-not-cancelled")
     if f["pend"] != "0":
         fails.append("timeout.left-running")
+    if f["tm"] not in ("0", "-"):
+        fails.append("timeout.timer-left-armed")   # "leaves nothing running": caller and function done, timer still armed
     return sorted(set(fails))
 
 
